@@ -1,6 +1,7 @@
 package c16
 
 import (
+	"errors"
 	"sync"
 
 	"github.com/NethermindEth/juno/db"
@@ -72,19 +73,115 @@ func (f *fdb) DeleteRange(start, end []byte) error {
 }
 
 // ---- batches
+//
+// fbatch defers the creation of the underlying memory batch until the first write. A memory batch answers
+// reads from its own writes first and from the live database otherwise, so a batch without writes is
+// equivalent to reading the database directly; memory's batch iterator however deep-copies the whole
+// database on every NewIterator, which the legacy state backend calls for every historical read (it opens
+// an indexed batch per state view and never writes to it). Reading through is what makes the state oracles
+// affordable; the semantics are unchanged.
 type fbatch struct {
-	db.IndexedBatch // memory batches are indexed batches
-	f               *fdb
+	f      *fdb
+	real   db.IndexedBatch
+	closed bool
 }
 
-func (b *fbatch) Write() error { return b.f.commit(b.IndexedBatch.Write) }
+var errBatchClosed = errors.New("c16: batch closed")
 
-func (f *fdb) NewBatch() db.Batch               { return &fbatch{f.inner.NewIndexedBatch(), f} }
-func (f *fdb) NewBatchWithSize(int) db.Batch    { return &fbatch{f.inner.NewIndexedBatch(), f} }
-func (f *fdb) NewIndexedBatch() db.IndexedBatch { return &fbatch{f.inner.NewIndexedBatch(), f} }
-func (f *fdb) NewIndexedBatchWithSize(int) db.IndexedBatch {
-	return &fbatch{f.inner.NewIndexedBatch(), f}
+func (b *fbatch) ensure() db.IndexedBatch {
+	if b.real == nil {
+		b.real = b.f.inner.NewIndexedBatch()
+	}
+	return b.real
 }
+
+func (b *fbatch) Put(k, v []byte) error {
+	if b.closed {
+		return errBatchClosed
+	}
+	return b.ensure().Put(k, v)
+}
+
+func (b *fbatch) Delete(k []byte) error {
+	if b.closed {
+		return errBatchClosed
+	}
+	return b.ensure().Delete(k)
+}
+
+func (b *fbatch) DeleteRange(s, e []byte) error {
+	if b.closed {
+		return errBatchClosed
+	}
+	return b.ensure().DeleteRange(s, e)
+}
+
+func (b *fbatch) Get(k []byte, cb func([]byte) error) error {
+	if b.closed {
+		return errBatchClosed
+	}
+	if b.real == nil {
+		return b.f.inner.Get(k, cb)
+	}
+	return b.real.Get(k, cb)
+}
+
+func (b *fbatch) Has(k []byte) (bool, error) {
+	if b.closed {
+		return false, errBatchClosed
+	}
+	if b.real == nil {
+		return b.f.inner.Has(k)
+	}
+	return b.real.Has(k)
+}
+
+func (b *fbatch) NewIterator(prefix []byte, withUpperBound bool) (db.Iterator, error) {
+	if b.closed {
+		return nil, errBatchClosed
+	}
+	if b.real == nil {
+		return b.f.inner.NewIterator(prefix, withUpperBound)
+	}
+	return b.real.NewIterator(prefix, withUpperBound)
+}
+
+func (b *fbatch) Size() int {
+	if b.real == nil {
+		return 0
+	}
+	return b.real.Size()
+}
+
+// Write is one commit (an empty batch commits nothing but still is a point where the process can die).
+func (b *fbatch) Write() error {
+	if b.closed {
+		return errBatchClosed
+	}
+	b.closed = true
+	return b.f.commit(func() error {
+		if b.real == nil {
+			return nil
+		}
+		return b.real.Write()
+	})
+}
+
+func (b *fbatch) Close() error {
+	if b.closed {
+		return errBatchClosed
+	}
+	b.closed = true
+	if b.real != nil {
+		return b.real.Close()
+	}
+	return nil
+}
+
+func (f *fdb) NewBatch() db.Batch                          { return &fbatch{f: f} }
+func (f *fdb) NewBatchWithSize(int) db.Batch               { return &fbatch{f: f} }
+func (f *fdb) NewIndexedBatch() db.IndexedBatch            { return &fbatch{f: f} }
+func (f *fdb) NewIndexedBatchWithSize(int) db.IndexedBatch { return &fbatch{f: f} }
 
 // ---- helpers
 func (f *fdb) Update(fn func(db.IndexedBatch) error) error {
